@@ -29,13 +29,20 @@ def freq_grid(rng, nf=None, kind=None, allow_zero=True):
 
 
 def dir_grid(rng, nd=None, kind=None):
-    kind = kind or rng.choice(["uniform0", "uniform_off", "uniform_rot", "nonuniform", "nonuniform_rot"])
+    kind = kind or rng.choice(["uniform0", "uniform_off", "uniform_rot", "nonuniform", "nonuniform_rot", "uniform_gap"])
     nd = int(nd if nd is not None else rng.choice([8, 12, 16, 24, 36, 37, 48, 72, 90, 144]))
     step = 360.0 / nd
     if kind == "uniform0":
         d = np.arange(nd) * step
     elif kind == "uniform_off":
         d = rng.uniform(-180.0, 360.0) + np.arange(nd) * step
+    elif kind == "uniform_gap":
+        # evenly spaced along the array, but the bin that closes the circle is wider/narrower than the others,
+        # e.g. np.arange(0, 350, 10) (35 bins) or np.linspace(0, 345, 36)
+        # (the closing bin stays narrower than 180 degrees: with a wider one the wrapped bin width is negative and the
+        # grid does not "cover the circle" in the sense of C02)
+        s_ = float(rng.choice([0.8, 0.9, 0.97])) * step if rng.uniform() < 0.7 else step * nd / (nd + 1)
+        d = float(rng.choice([0.0, 0.0, -180.0, 17.5])) + np.arange(nd) * s_
     elif kind == "uniform_rot":
         # values in [0,360) but cyclically rotated, e.g. [100,...,350,0,...,90]
         base = (np.arange(nd) * step + rng.integers(0, 4) * step / 4)
@@ -240,6 +247,9 @@ def build(c):
         create_1d_spectrum, create_2d_spectrum)
     layout = c["layout"]
     time = np.asarray(c["time"]).astype("int64").astype("datetime64[s]")
+    # the object gets private copies: whatever the code under test writes into its own arrays must never reach the
+    # generator case (which oracles and "fresh object" references are computed from)
+    c = {k: (np.array(v, copy=True) if isinstance(v, np.ndarray) else v) for k, v in c.items()}
     with warnings.catch_warnings():
         warnings.simplefilter("ignore")
         if c["kind"] == "1d":
